@@ -1173,9 +1173,12 @@ class CifEngine(Engine):
             s2 = seams.SimStringIO(ctx=ctx)
             _, e2 = self._save_call(op, lib, s2, cif)
             if e2 is not None:
-                ctx.violate("save_raised", f"after an interruption of save #{n} at {where} {at}/{totals[where]}, saving "
-                            f"again raised {e2}", kind="save_after_interrupt_raised", exc=e2.name,
-                            hazards=sorted(self._hz), found_by="interruption", _hint=hint)
+                # a refusal after an abnormal exit produces no document: the statement is about the
+                # documents that ARE produced -> counted, not an alarm (on the pinned tree an
+                # interruption inside the builder's id generator makes every later save of that
+                # builder raise StopIteration)
+                ctx.probe("object_refuses_to_save_after_interruption")
+                ctx.log("refused_after_interrupt", e2.name)
             else:
                 self._judge(ctx, s2.getvalue(), exp2, f"save #{n} again after an interruption at {where} {at}/{totals[where]}")
             for v in ctx.violations[n0:]:
